@@ -109,6 +109,7 @@ def run_generated(fz, rng, ntrees, nblocks, max_block_bytes):
             env.set_retarget(ref.RETARGET_PERIOD)
             params = None
         world = gen.World(rng, params=params)
+        world.odd_reward_prob = rng.choice([0.0, 0.4])      # valid rewards with split / zero-valued / no outputs
         before = {}
         dtc = (1, 2, 60, 120, 600) if not period else tuple(ref.RETARGET_TIMESPAN // period * f // 2 for f in (1, 2, 3))
         for _k in range(nblocks):
@@ -116,9 +117,25 @@ def run_generated(fz, rng, ntrees, nblocks, max_block_bytes):
             ids = world.grow(1, rng, tx_prob=0.8, max_txs=rng.choice([1, 3, 6]), dt_choices=dtc)
             if ids:
                 before[ids[0]] = prev_cs
+        # one block whose reward has NO outputs (valid: it claims nothing), so that its encoding ends in an empty list
+        try:
+            prev_cs = world.cs
+            hd = prev_cs.current_chain_hash
+            rb0, real0 = world.assemble(hd, [], world.chain.blocks[hd].ts + dtc[0], world.keys[0][1], reward_outputs=[])
+            b0 = world.accept(rb0, real0)
+            if b0 is not None:
+                before[b0] = prev_cs
+        except Exception:
+            pass
         order = world.chain.order[1:]
         chain_hex = gen.blocks_hex(world, order)
         pick = order if len(order) <= 6 else rng.sample(order, 6)
+        # blocks whose encoding ENDS in an empty list (the last transaction has no outputs) are always among the fuzzed ones
+        special = [b for b in order if not world.chain.blocks[b].txs[-1].outputs]
+        for b in special[:2]:
+            if b not in pick:
+                pick = list(pick) + [b]
+        fz.c["blocks_ending_in_an_empty_list"] = fz.c.get("blocks_ending_in_an_empty_list", 0) + len([b for b in pick if b in special])
         for bid in pick:
             rb = world.chain.blocks[bid]
             raw = rb.enc()
